@@ -1094,6 +1094,62 @@ func affected(base state.Reader, b *built, l *bal.BlockAccessList) int {
 	return -1
 }
 
+// balShapeTags describes which kinds of mutation the accounts of the true access list
+// carry ("acct:nonce" = an account whose only changes are nonce changes), and which of
+// them change at two or more block-access indices ("multi:..."): the accounts through
+// which a later transaction can depend on an earlier one.
+func balShapeTags(l *bal.BlockAccessList) []string {
+	seen := map[string]bool{}
+	isSender := map[common.Address]bool{}
+	for _, a := range eoas {
+		isSender[a] = true
+	}
+	for i := range *l {
+		a := &(*l)[i]
+		var ks []string
+		idx := map[uint32]bool{}
+		if len(a.BalanceChanges) > 0 {
+			ks = append(ks, "balance")
+			for _, c := range a.BalanceChanges {
+				idx[c.BlockAccessIndex] = true
+			}
+		}
+		if len(a.NonceChanges) > 0 {
+			ks = append(ks, "nonce")
+			for _, c := range a.NonceChanges {
+				idx[c.BlockAccessIndex] = true
+			}
+		}
+		if len(a.CodeChanges) > 0 {
+			ks = append(ks, "code")
+			for _, c := range a.CodeChanges {
+				idx[c.BlockAccessIndex] = true
+			}
+		}
+		if len(a.StorageChanges) > 0 {
+			ks = append(ks, "storage")
+			for _, sc := range a.StorageChanges {
+				for _, c := range sc.SlotChanges {
+					idx[c.BlockAccessIndex] = true
+				}
+			}
+		}
+		if len(ks) == 0 || isSender[a.Address] {
+			continue
+		}
+		k := strings.Join(ks, "+")
+		seen["acct:"+k] = true
+		if len(idx) >= 2 {
+			seen["multi:"+k] = true
+		}
+	}
+	var out []string
+	for k := range seen {
+		out = append(out, k)
+	}
+	return out
+}
+
 var lastBuilt *built // the most recent build (shrinking re-runs the same seed many times)
 
 func run(c Sx) Result {
@@ -1244,6 +1300,7 @@ func run(c Sx) Result {
 	}
 	tags := append([]string{}, b.tags...)
 	tags = append(tags, fmt.Sprintf("txs=%d", b.n), fmt.Sprintf("workers=%d", b.workers))
+	tags = append(tags, balShapeTags(b.trueBal)...)
 	for k := range kinds {
 		tags = append(tags, "mut:"+k)
 	}
